@@ -39,7 +39,7 @@ Definition CI (h j : Z) (d : bool) (nj : Z) (inl : bool) (x : conn) : Prop :=
              (d = false -> c_alloc x = false)
   | p => c_alloc x = true /\ c_rc x = init_of (c_st x) + c_uref x + h + jw j + nj /\ 1 <= c_rc x /\
          (c_reg x = true -> c_st x = ACTIVE \/ c_st x = ESTABLISHED) /\
-         (j = 3 -> p = PAcc /\ c_st x = INACTIVE /\ inl = false /\ c_reg x = false) /\
+         (j = 3 -> p = PAcc /\ c_st x = INACTIVE /\ c_reg x = false) /\
          (j = 4 -> p = PCre /\ (c_st x = ACTIVE \/ c_st x = INACTIVE)) /\
          match c_st x with
          | INACTIVE => (p = PAcc \/ p = PCre) /\ (j = 0 \/ j = 3 \/ j = 4) /\ nj = 0 /\ c_notified x = false
@@ -53,9 +53,14 @@ Definition CI (h j : Z) (d : bool) (nj : Z) (inl : bool) (x : conn) : Prop :=
 Fixpoint desc (l : list nat) : Prop :=
   match l with [] => True | a :: t => (forall b, In b t -> (b < a)%nat) /\ desc t end.
 
+(* the list: strictly descending ids (list_add puts the newest connection at the head); while
+   handle_new_connection has not linked its connection yet (j = 3) everything on the list is older *)
+Definition LI (J : nat -> Z) (l : list nat) : Prop :=
+  desc l /\ forall c b, J c = 3 -> In b l -> (b < c)%nat.
+
 Definition GI (H J : nat -> Z) (D : nat -> bool) (w : world) : Prop :=
   (forall c, CI (H c) (J c) (D c) (cnt c (jobs w)) (mem_id c (s_list w)) (conns w c)) /\
-  desc (s_list w) /\
+  LI J (s_list w) /\
   (forall c, (next w <= c)%nat -> c_ph (conns w c) = PNone).
 
 Definition addf (f : nat -> Z) (c : nat) (d : Z) : nat -> Z := fun i => if Nat.eqb i c then f i + d else f i.
@@ -98,10 +103,14 @@ Lemma GI_put : forall H J D H' J' D' w c x',
   (forall i, i <> c -> H' i = H i /\ J' i = J i /\ D' i = D i) ->
   CI (H' c) (J' c) (D' c) (cnt c (jobs w)) (mem_id c (s_list w)) x' ->
   (c_ph x' = PNone <-> c_ph (conns w c) = PNone) ->
+  (J' c = 3 -> J c = 3) ->
   GI H' J' D' (put c x' w).
 Proof.
-  unfold GI; intros H J D H' J' D' w c x' (A & B & C) E Hc Hp; simpl.
+  unfold GI; intros H J D H' J' D' w c x' (A & B & C) E Hc Hp Hj3; simpl.
   split; [|split]; auto.
+  2: { destruct B as [B1 B2]. split; auto. intros c0 b E0 Hb. destruct (Nat.eq_dec c0 c).
+       - subst. apply (B2 c b); auto.
+       - destruct (E c0 n) as (_ & E1 & _). rewrite E1 in E0. apply (B2 c0 b); auto. }
   - intros i. unfold updf. destruct (Nat.eqb_spec i c).
     + subst; auto.
     + destruct (E i n) as (-> & -> & ->). apply A.
@@ -114,7 +123,8 @@ Lemma GI_ctx : forall H J D H' J' D' w,
   (forall i, H' i = H i /\ J' i = J i /\ D' i = D i) -> GI H J D w -> GI H' J' D' w.
 Proof.
   unfold GI; intros H J D H' J' D' w E (A & B & C). split; [|split]; auto.
-  intros c. destruct (E c) as (-> & -> & ->). apply A.
+  - intros c. destruct (E c) as (-> & -> & ->). apply A.
+  - destruct B as [B1 B2]. split; auto. intros c b E0 Hb. destruct (E c) as (_ & E1 & _). rewrite E1 in E0. eauto.
 Qed.
 
 Lemma addf_same : forall f c d, addf f c d c = f c + d.
@@ -176,3 +186,16 @@ Definition cb_ok (cb : kind -> nat -> world -> R) : Prop :=
     exists ret p', phase_step k ret (c_ph (conns w c)) = Some p' /\
       forall H J D, GI H J D (put c (w_ph p' (conns w c)) w) ->
         safe (fun w' r => r = ret /\ GI H J D w') (cb k c w).
+
+Lemma LI_remove : forall J c l, LI J l -> LI J (remove_id c l).
+Proof. intros J c l [A B]. split. apply desc_remove; auto. intros c0 b E Hb. apply (B c0 b); auto. eapply In_remove; eauto. Qed.
+Lemma LI_setf_in : forall J c v l, v <> 3 -> LI J l -> LI (setf J c v) l.
+Proof.
+  intros J c v l Hv [A B]. split; auto. intros c0 b E Hb. unfold setf in E.
+  destruct (Nat.eqb c0 c); [congruence | eauto].
+Qed.
+Lemma LI_setf_out : forall J c v l, J c <> 3 -> LI (setf J c v) l -> LI J l.
+Proof.
+  intros J c v l Hv [A B]. split; auto. intros c0 b E Hb. apply (B c0 b); auto.
+  unfold setf. destruct (Nat.eqb_spec c0 c); [subst; congruence | auto].
+Qed.
